@@ -153,8 +153,11 @@ func fsRequests(quick bool) []harness.Req {
 		for _, b := range []string{"x", "yy", ""} {
 			out = append(out, harness.Req{Method: "PUT", Path: p, Body: b})
 		}
-		for _, d := range []string{"-", "0", "1", "infinity", "2"} {
+		for _, d := range []string{"-", "0", "1", "infinity", "2", "-1", "01", "+1"} {
 			for _, b := range []string{"", pfAllprop, pfPropname, pfProp, pfNone} {
+				if len(d) > 1 && d != "infinity" && b != "" && b != pfAllprop {
+					continue // numbers that are not exactly 0 or 1: two body forms suffice
+				}
 				q := harness.Req{Method: "PROPFIND", Path: p, Body: b, Header: map[string]string{}}
 				if d != "-" {
 					q.Header["Depth"] = d
@@ -165,6 +168,10 @@ func fsRequests(quick bool) []harness.Req {
 				out = append(out, q)
 			}
 		}
+	}
+	// the served directory itself, in every spelling that cleans to it, is never deleted
+	for _, p := range []string{"/", "//", "/.", "/./", "/a/..", "/a/../", "/b.html/../."} {
+		out = append(out, harness.Req{Method: "DELETE", Path: p, Raw: true})
 	}
 	// names that need escaping: every method, and COPY/MOVE with escaped Destination headers
 	special := []string{"/a%41", "/100%", "/100%/a b", "/é", "/aA", "/100%/new%2f", "/a b", "/a", "/ab", "/a.bak", "/a/..b", "/..a", "/a/a..", "/..a/c"}
@@ -194,8 +201,11 @@ func fsRequests(quick bool) []harness.Req {
 				continue
 			}
 			for _, dst := range dests {
-				for _, d := range []string{"-", "0", "1", "infinity", "2"} {
+				for _, d := range []string{"-", "0", "1", "infinity", "2", "-1", "01"} {
 					for _, ow := range []string{"-", "T", "F", "X"} {
+						if len(d) > 1 && d != "infinity" && ow != "-" {
+							continue
+						}
 						q := harness.Req{Method: m, Path: src, Header: map[string]string{}}
 						if dst != "\x00missing" {
 							q.Header["Destination"] = dst
